@@ -787,7 +787,7 @@ class Fn:
                 if rest.startswith("*"):
                     return inner + rest[1:]
                 return "&" + inner + rest
-            if rv["r"] == "use":
+            if rv["r"] in ("use", "cast"):
                 q = op_place(rv["o"])
                 if q is not None:
                     inner = self._origin_place(q, depth + 1)
